@@ -33,8 +33,9 @@ type Rule struct {
 	Doc  string
 	Run  func(c *Ctx)
 	// MinInstances: the rule must produce at least this many obligations on the
-	// repository (a rule that matches nothing proves nothing). 0 = generic rule
-	// for which zero instances is genuinely fine (covered by a positive control).
+	// repository (a rule that matches nothing proves nothing). Set to about 70% of
+	// the count confirmed by hand: a refactoring that merges two sites into one
+	// must not trip it, losing a third of the sites must.
 	MinInstances int
 }
 
@@ -66,6 +67,12 @@ func main() {
 		switch *dump {
 		case "externals":
 			dumpExternals(p)
+		case "classes":
+			c := newCtx(p, "dump", "quick")
+			fns, _ := c.scope(c.allEntryRoots(), scopeOpts{})
+			for _, f := range fns {
+				fmt.Printf("%-60s %s\n", shortName(f), sigClass(f))
+			}
 		case "bindings":
 			c := newCtx(p, "dump", "quick")
 			b := newBinder(c, resultCarriers...)
@@ -176,7 +183,7 @@ func runProperty(repo, id, tier, onlyKey string, verbose bool) (rc int) {
 	}
 	var results []cfgResult
 	for _, cf := range configs {
-		p, err := loadProgram(LoadOpts{Dir: repo, GOARCH: cf.goarch, Tags: cf.tags})
+		p, err := loadProgramCached(LoadOpts{Dir: repo, GOARCH: cf.goarch, Tags: cf.tags})
 		if err != nil {
 			return fail(fmt.Sprintf("[%s] %v", cf.name, err))
 		}
@@ -297,26 +304,26 @@ func runProperty(repo, id, tier, onlyKey string, verbose bool) (rc int) {
 	}
 	fnCount := len(main.P.ModFns)
 	cov := map[string]any{
-		"explanation":           spec.Explain,
-		"obligations":           len(all),
-		"discharged":            discharged,
-		"reviewed_exceptions":   exc,
-		"failed":                len(failures),
-		"known_findings":        knownLines,
-		"rules":                 stats,
-		"rule_docs":             ruleDocs,
-		"samples":               samples,
-		"packages_loaded":       len(main.P.Pkgs),
-		"module_functions":      fnCount,
-		"configurations":        configNames(configs),
-		"checker_cmd":           fmt.Sprintf("gtfscheck -property %s -tier %s", id, tier),
-		"stats":                 main.Stats,
-		"notes":                 main.Notes,
-		"evaluations":           len(all),
-		"distinct_nontrivial":   len(main.seen),
-		"rule":                  "one evaluation per obligation = rule instance discovered in the current source (keyed rule|function|construct); distinct = distinct keys",
-		"exhaustive":            true,
-		"known_findings_file":   "known-findings.txt",
+		"explanation":                      spec.Explain,
+		"obligations":                      len(all),
+		"discharged":                       discharged,
+		"reviewed_exceptions":              exc,
+		"failed":                           len(failures),
+		"known_findings":                   knownLines,
+		"rules":                            stats,
+		"rule_docs":                        ruleDocs,
+		"samples":                          samples,
+		"packages_loaded":                  len(main.P.Pkgs),
+		"module_functions":                 fnCount,
+		"configurations":                   configNames(configs),
+		"checker_cmd":                      fmt.Sprintf("gtfscheck -property %s -tier %s", id, tier),
+		"stats":                            main.Stats,
+		"notes":                            main.Notes,
+		"evaluations":                      len(all),
+		"distinct_nontrivial":              len(main.seen),
+		"rule":                             "one evaluation per obligation = rule instance discovered in the current source (keyed rule|function|construct); distinct = distinct keys",
+		"exhaustive":                       true,
+		"known_findings_file":              "known-findings.txt",
 		"obligations_not_covered_by_claim": assumed,
 	}
 	ev := evidence{PropertyID: id, Tier: tier, Seed: seed, Level: "other", Coverage: cov,
@@ -375,3 +382,18 @@ func thoroughExtras(c *Ctx) {
 var thoroughHooks []func(c *Ctx)
 
 func trimPos(s string) string { return strings.TrimSpace(s) }
+
+// loadProgramCached shares one loaded program between the properties of a "-property all" run
+// (development use; registered commands run one property per process).
+var progCache = map[LoadOpts]*Program{}
+
+func loadProgramCached(o LoadOpts) (*Program, error) {
+	if p, ok := progCache[o]; ok {
+		return p, nil
+	}
+	p, err := loadProgram(o)
+	if err == nil {
+		progCache[o] = p
+	}
+	return p, err
+}
